@@ -122,6 +122,11 @@ MapScripts ==
        BM("set", "clm", Val("str", "", "x", 0)), BM("set", "hdr", Val("str", "b", NONE, 0)),
        BM("get", "clm", Val("str", "a", NONE, 0)), BM("get", "clm", Val("int", "zz", W0, 0)), BM("get", "hdr", Val("bool", NONE, 0, 0)),
        BM("set", "clm", [Val("json", "j", "{\"a\":", 0) EXCEPT !.jcls = "malformed"]), BM("del", "clm", Val("int", "a", W0, 0)) >>,
+    \* whole-object sets whose text is an array, a scalar, malformed: refused, with the same code in both places
+    << BNewOp, BM("set", "clm", [Val("json", NONE, "[1,2]", 0) EXCEPT !.jcls = "arr"]), BM("set", "hdr", [Val("json", NONE, "[]", 1) EXCEPT !.jcls = "arr"]),
+       BM("set", "clm", [Val("json", "", "[1,2]", 1) EXCEPT !.jcls = "arr"]), BM("set", "clm", [Val("json", NONE, "7", 0) EXCEPT !.jcls = "scalar"]),
+       BM("set", "hdr", [Val("json", NONE, "{\"a\":", 1) EXCEPT !.jcls = "malformed"]), BM("set", "clm", [Val("json", NONE, NONE, 0) EXCEPT !.jcls = "null"]),
+       BM("get", "clm", Val("json", NONE, NONE, 0)) >>,
     \* string values that are not UTF-8: on a fresh name, on an existing one without and with replace
     << BNewOp, BM("set", "clm", Val("str", "s", "#hex:fffe", 0)), BM("set", "hdr", Val("str", "s", "#hex:c0af", 1)),
        BM("set", "clm", Val("str", "a", "x", 0)), BM("set", "clm", Val("str", "a", "#hex:61ff62", 0)), BM("set", "clm", Val("str", "a", "#hex:61ff62", 1)),
